@@ -562,6 +562,12 @@ def run(ctx):
     ctx.attempt(r66, ctx)
     ctx.rule("R-6.12", "tables written to restart.toml / the data file from a per-run dictionary are emitted in sorted order (insertion order differs between a run and its restart)", floor=1)
     ctx.attempt(r612, ctx)
+    ctx.rule("R-6.14", "every completed step is committed: each normal path through treat_output writes restart.toml", floor=1)
+    from .shared import commit_every_step
+    ctx.attempt(commit_every_step, ctx, "R-6.14")
+    ctx.rule("R-6.13", "nothing in the move / scheduler code branches on the tag of paths reloaded at a restart (the continued run treats a path like the uninterrupted run does)", floor=1)
+    from .shared import restart_tag_not_tested
+    ctx.attempt(restart_tag_not_tested, ctx, "R-6.13", " (restart equivalence)")
     from .shared import commit_is_final
     ctx.attempt(commit_is_final, ctx, "R-6.5")
     from . import c14
@@ -578,6 +584,8 @@ def run(ctx):
 
 
 VARIANTS = [
+    B("c06-commit-only-when-printing", REPEX, "            self.print_shooted(md_items, pn_news)\n        # save for possible restart\n        self.write_toml()", "            self.print_shooted(md_items, pn_news)\n            # save for possible restart\n            self.write_toml()", "R-6.14", control=True, why="seeded C06_g"),
+    B("c06-restarted-paths-treated-differently", TIS, '    if path.get_move() == "ld" or ens_set["tis_set"].get(', '    if path.get_move() in ("ld", "re") or ens_set["tis_set"].get(', "R-6.13", control=True, why="seeded C09_g"),
     B("c06-frac-table-in-insertion-order", REPEX, "        for key in sorted(self.traj_data.keys()):\n            fracs = [str(i) for i in self.traj_data[key][\"frac\"]]", "        for key, data in self.traj_data.items():\n            fracs = [str(i) for i in data[\"frac\"]]", "R-6.12", control=True, why="seeded C06_f"),
     K("c06-keep-frac-table-sorted-items", REPEX, "        for key in sorted(self.traj_data.keys()):\n            fracs = [str(i) for i in self.traj_data[key][\"frac\"]]", "        for key, data in sorted(self.traj_data.items()):\n            fracs = [str(i) for i in data[\"frac\"]]"),
     B("c06-reissue-recorded-as-int", REPEX, "        self.locked.append((enss, trajs0))\n", "        self.locked.append((enss, [i.path_number for i in trajs]))\n", "R-6.11", why="seeded C06_e (= C17_a)"),
